@@ -658,6 +658,7 @@ func (ex *executor) serve(idx int, st *Step) *Exchange {
 		ctxCancelled = "at-call"
 	}
 	xc.CtxCancelled = ctxCancelled
+	xc.Req.MayFail = ctxCancelled != ""
 	xc.Req.BodyBroken = body.Failed
 	if body.CutClean {
 		// the server saw a shorter, clean stream: that is what was "sent"
